@@ -32,7 +32,13 @@ def sig_item(it):
         return ("look", it.positive, sig_item(it.item))
     if isinstance(it, Forced):
         return ("forced", sig_item(it.item))
-    return it.key()
+    k = it.key()
+    # CPython 3.11 still had ASYNC/AWAIT token kinds; from 3.12 on (and here) they are the keywords
+    if k == ("tok", "ASYNC"):
+        return ("lit", "async")
+    if k == ("tok", "AWAIT"):
+        return ("lit", "await")
+    return k
 
 
 def sig_alt(a):
@@ -74,3 +80,20 @@ def describe_diff(a, b) -> str:
                 return f"alternative {i}: look-ahead items differ (here {[t for t in x if t not in lx]}, CPython {[t for t in y if t not in ly]})"
             return f"alternative {i} differs: here {x}, CPython {y}"
     return "?"
+
+
+EQUAL_ALTS = os.path.join(VERIF, "oracle", "cpython311_equal_alts.txt")
+
+
+def equal_alts() -> list[tuple[str, int, int]]:
+    """(rule, index of the alternative in CPython's rule) for rules that are *not* wholly CPython's but share alternatives
+    with it on the pinned tree."""
+    if not os.path.exists(EQUAL_ALTS):
+        raise AnalysisError("reference list oracle/cpython311_equal_alts.txt missing")
+    out = []
+    for l in open(EQUAL_ALTS):
+        l = l.strip()
+        if l and not l.startswith("#"):
+            r, j, i = l.split()
+            out.append((r, int(j), int(i)))
+    return out
